@@ -148,7 +148,7 @@ def run(ctx):
     # under the gaps of the rendering, byte for byte; (b) D.expected = spec_value; (c) every path's value above =
     # spec_value; plus: the implementation's tape / reader tokens of the rendering = flatten / tokens of the document.
     from props import spectie
-    spectie.run_text(ctx, tie_groups, cases, impl, base, ctx.scale(1500, 12000))
+    spectie.run_text(ctx, tie_groups, cases, impl, base, ctx.scale(4000, 30000))
     # ---- [spec_tie] END
 
     # fixed replays of the known deviations (each is re-found on every run; silent once the code is repaired)
